@@ -67,10 +67,11 @@ def parseSnapshot : List String → Option Snapshot
            endpoints := atoms e, reqRds := atoms qr, reqEds := atoms qe, invalid := atoms inv }
   | _ => none
 
+/-- `ok`, or every violated clause with its offending item, ` || `-separated, first violation first. -/
 def verdict (s : Snapshot) : String :=
-  match firstViolation s with
-  | none => "ok"
-  | some (c, d) => s!"bad {c.tok} {" ".intercalate (d.map enc)}"
+  match allViolations s with
+  | [] => "ok"
+  | vs => " || ".intercalate (vs.map (fun (c, d) => s!"bad {c.tok} {" ".intercalate (d.map enc)}"))
 
 /-! ## kernel streams -/
 
